@@ -336,7 +336,8 @@ def document_single_file(file, root, settings: Settings):
         # Path to file relative to input_path
         header_name = os.path.relpath(file, root)
     else:
-        header_name = file
+        # A lone input file is known by its name, not by where it happens to be
+        header_name = os.path.basename(file)
 
     if prefix is not None:
         # If current file dir is same as root dir, replace "." with prefix
